@@ -5,9 +5,12 @@ become contract stubs) are proved to return false only if the comparison is fals
 if one comparison returned true, and to hand the comparison exactly the string-value of ONE left node and ONE right node, left operand
 first.  This discharges what unit c02_xobject assumes about the compareNodeSets family (which loop serves which operand type is the job
 `dispatch`)."""
-from xvlib.unit import Fn, Job, Unit, Mutant
+from xvlib.unit import Fn, Job, Unit, Mutant, Block
 
 XO = 'src/xalanc/XPath/XObject.cpp'
+XOH = 'src/xalanc/XPath/XObject.hpp'
+ENUM = Block(XOH, r'^\s*enum\s+eObjectType\s*\{', 'eObjectType',
+             rules=[(r'enum\s+eObjectType', 'typedef enum', 1), (r'\}\s*;', '} XObject_eObjectType;', 1)])
 TEMPLATE = r'''
 #include "xv_shim.h"
 typedef struct XalanNode XalanNode; typedef struct Ctx XPathExecutionContext; typedef struct NL NodeRefListBase; typedef struct XO XObject;
@@ -71,6 +74,26 @@ __CPROVER_ensures(g_hit == (__CPROVER_return_value == true ? true : __CPROVER_ol
 @@FN doCompareNodeSets@@
 @@FN doCompareString@@
 @@FN doCompareNumber@@
+#ifdef XV_DISPATCH
+@@BLOCK eObjectType@@
+/* ---- compareNodeSets: which loop serves which type of right operand ---- */
+enum { K_NONE = 0, K_NODESETS, K_STRING, K_NUMBER, K_PLAIN };
+const XObject *g_L, *g_R; int g_kind; int g_ncalls; bool g_res; bool g_lbool; double g_rnum; double g_plain_l;
+const NodeRefListBase* xv_nodeset(const XObject* o) __CPROVER_requires(o == g_L || o == g_R) __CPROVER_assigns() __CPROVER_ensures(__CPROVER_return_value == (o == g_L ? g_lhs : g_rhs)) ;
+double xv_num(const XObject* o) __CPROVER_requires(/* only the right operand is converted to a number as a whole */ o == g_R) __CPROVER_assigns() __CPROVER_ensures(SAMEBITS(__CPROVER_return_value, g_rnum)) ;
+bool xv_boolean(const XObject* o) __CPROVER_requires(o == g_L) __CPROVER_assigns() __CPROVER_ensures(__CPROVER_return_value == g_lbool) ;
+#define LOOPSTUB(name, kind, extra_req) __CPROVER_requires(l == g_lhs && (extra_req)) __CPROVER_assigns(g_kind, g_ncalls) \
+    __CPROVER_ensures(g_kind == kind && g_ncalls == __CPROVER_old(g_ncalls) + 1 && __CPROVER_return_value == g_res) ;
+bool xv_doCompareNodeSets(const NodeRefListBase* l, const NodeRefListBase* r) LOOPSTUB(xv_doCompareNodeSets, K_NODESETS, r == g_rhs)
+bool xv_doCompareString(const NodeRefListBase* l, const XObject* r) LOOPSTUB(xv_doCompareString, K_STRING, r == g_R)
+bool xv_doCompareNumber(const NodeRefListBase* l, double r) LOOPSTUB(xv_doCompareNumber, K_NUMBER, SAMEBITS(r, g_rnum))
+bool xv_numcmp(double a, double b) __CPROVER_requires(SAMEBITS(b, g_rnum)) __CPROVER_assigns(g_kind, g_ncalls, g_plain_l)
+__CPROVER_ensures(g_kind == K_PLAIN && g_ncalls == __CPROVER_old(g_ncalls) + 1 && g_plain_l == a && __CPROVER_return_value == g_res) ;
+@@FN compareNodeSets@@
+void h_dispatch(void)
+{ const XObject *a, *b; const NodeRefListBase *c, *d; bool e, f; double g; int t; g_L = a; g_R = b; g_lhs = c; g_rhs = d; g_kind = K_NONE; g_ncalls = 0; g_res = XV_BOOL(e); g_lbool = XV_BOOL(f); g_rnum = g; g_plain_l = 7.0;
+  compareNodeSets(g_L, g_R, (XObject_eObjectType)t, 0); }
+#endif
 static void xv_havoc(void)
 { const NodeRefListBase *a, *b; size_t n1, n2, wi, wk, li, ci; bool c; const XalanNode* ln; int ll; const XObject* o; double d, e;
   g_lhs = a; g_rhs = b; g_len1 = n1; g_len2 = n2; g_wi = wi; g_wk = wk; g_cmp_w = XV_BOOL(c); g_done = false; g_hit = false;
@@ -143,15 +166,41 @@ __CPROVER_assigns(g_done, g_hit, g_last_node, g_last_list, g_last_idx, g_s1.coun
            contract=PRE + '''__CPROVER_requires(SAMEBITS(theRHS, g_rhs_num))
 __CPROVER_assigns(g_done, g_hit, g_last_node, g_last_list, g_last_idx, g_cur_num, g_cur_idx, g_cur_valid)
 ''' + POST1),
+        Fn(XO, r'^compareNodeSets\(', 'compareNodeSets', 'bool compareNodeSets(const XObject* theLHS, const XObject* theRHS, XObject_eObjectType theRHSType, XPathExecutionContext* executionContext)',
+           head_expect=r'^template<class StringCompareFunction, class NumberCompareFunction> inline bool compareNodeSets\( const XObject& theLHS, const XObject& theRHS, XObject::eObjectType theRHSType, const StringCompareFunction& theStringCompareFunction, const NumberCompareFunction& theNumberCompareFunction, XPathExecutionContext& executionContext\)$',
+           rules=[(r'XObject::(eType\w+)', r'\1', None),
+                  (r'\b(theLHS|theRHS)\.nodeset\(\)', r'xv_nodeset(\1)', None),
+                  (r'\btheRHS\.num\(executionContext\)', 'xv_num(theRHS)', None),
+                  (r'\b(theLHS|theRHS)\.boolean\(executionContext\)', r'xv_boolean(\1)', 1),
+                  (r'doCompareNodeSets\(\s*(xv_nodeset\(\w+\)),\s*(xv_nodeset\(\w+\)),\s*getStringFromNodeFunction\(executionContext\),\s*theStringCompareFunction,\s*executionContext\)', r'xv_doCompareNodeSets(\1, \2)', (1, 3)),
+                  (r'doCompareNumber\(\s*(xv_nodeset\(\w+\)),\s*getNumberFromNodeFunction\(executionContext\),\s*([^,]+),\s*theNumberCompareFunction\)', r'xv_doCompareNumber(\1, \2)', (1, 4)),
+                  (r'doCompareString\(\s*(xv_nodeset\(\w+\)),\s*getStringFromNodeFunction\(executionContext\),\s*(\w+),\s*theStringCompareFunction,\s*executionContext\)', r'xv_doCompareString(\1, \2)', (1, 4)),
+                  (r'theNumberCompareFunction\(', 'xv_numcmp(', 1),
+                  (r'DoubleSupport::isNaN\((\w+)\)', r'XV_ISNAN(\1)', 1),
+                  'SCOPE'],
+           nloops=0,
+           contract='''__CPROVER_requires(theLHS == g_L && theRHS == g_R && g_L != g_R && g_lhs != g_rhs && g_kind == K_NONE && g_ncalls == 0 && XV_ISBOOL(g_res) && XV_ISBOOL(g_lbool))
+__CPROVER_requires(/* the types a caller passes (unit c02_xobject): the four XPath types, a result tree fragment, unknown */ theRHSType == eTypeNodeSet || theRHSType == eTypeString || theRHSType == eTypeNumber || theRHSType == eTypeBoolean || theRHSType == eTypeResultTreeFrag || theRHSType == eTypeUnknown)
+__CPROVER_assigns(g_kind, g_ncalls, g_plain_l)
+__CPROVER_ensures(/* node-set with node-set (XPath 3.4): some pair of nodes, compared by string-value */ theRHSType == eTypeNodeSet ==> (g_kind == K_NODESETS && g_ncalls == 1 && __CPROVER_return_value == g_res))
+__CPROVER_ensures(/* node-set with string: some node whose string-value compares true with the string */ theRHSType == eTypeString ==> (g_kind == K_STRING && g_ncalls == 1 && __CPROVER_return_value == g_res))
+__CPROVER_ensures(/* node-set with number: some node whose string-value converted to a number compares true with the number */ theRHSType == eTypeNumber ==> (g_kind == K_NUMBER && g_ncalls == 1 && __CPROVER_return_value == g_res))
+__CPROVER_ensures(/* node-set with boolean: boolean(node-set) against the boolean, no loop over the nodes */ theRHSType == eTypeBoolean ==> (g_kind == K_PLAIN && g_ncalls == 1 && g_plain_l == (g_lbool == true ? 1.0 : 0.0) && __CPROVER_return_value == g_res))
+__CPROVER_ensures(/* result tree fragment: one of the two per-node loops (as a number when the fragment is numeric - Xalan's choice, not pinned to the Recommendation here) */
+    theRHSType == eTypeResultTreeFrag ==> (g_ncalls == 1 && (g_kind == K_NUMBER || g_kind == K_STRING) && (g_kind == K_NUMBER) == !XV_ISNAN(g_rnum) && __CPROVER_return_value == g_res))
+__CPROVER_ensures(theRHSType == eTypeUnknown ==> (g_ncalls == 0 && __CPROVER_return_value == false))'''),
     ],
+    blocks=[ENUM],
     template=TEMPLATE,
-    jobs=[Job('nodesets', 'h_nodesets', enforce=['doCompareNodeSets'], replace=['xv_getLength', 'xv_item', 'xv_string_of', 'xv_clear', 'xv_cmp_ss'], loop_contracts=True, reach='all', timeout=600, min_obligations=10),
+    jobs=[Job('dispatch', 'h_dispatch', enforce=['compareNodeSets'], replace=['xv_nodeset', 'xv_num', 'xv_boolean', 'xv_doCompareNodeSets', 'xv_doCompareString', 'xv_doCompareNumber', 'xv_numcmp'], defines=['XV_DISPATCH'], reach='all', timeout=120, min_obligations=6),
+          Job('nodesets', 'h_nodesets', enforce=['doCompareNodeSets'], replace=['xv_getLength', 'xv_item', 'xv_string_of', 'xv_clear', 'xv_cmp_ss'], loop_contracts=True, reach='all', timeout=600, min_obligations=10),
           Job('string', 'h_string', enforce=['doCompareString'], replace=['xv_getLength', 'xv_item', 'xv_string_of', 'xv_clear', 'xv_cmp_so'], loop_contracts=True, reach='all', timeout=600, min_obligations=8),
           Job('number', 'h_number', enforce=['doCompareNumber'], replace=['xv_getLength', 'xv_item', 'xv_number_of', 'xv_cmp_nn'], loop_contracts=True, reach='all', timeout=600, min_obligations=8)],
     mutants=[
         Mutant('rhs_string_not_cleared', XO, r'\n                    s2\.get\(\)\.clear\(\);\n                \}\n\n                s1\.get\(\)\.clear\(\);', '\n                }\n\n                s1.get().clear();\n                s2.get().clear();', expect=None),
         Mutant('inner_starts_at_one', XO, r'for\(NodeRefListBase::size_type k = 0; k < len2', 'for(NodeRefListBase::size_type k = 1; k < len2', expect=None),
         Mutant('operands_swapped', XO, r'theCompareFunction\(s1\.get\(\), s2\.get\(\)\)', 'theCompareFunction(s2.get(), s1.get())', expect='left operand'),
+        Mutant('string_operand_compared_as_number', XO, r'(else if\(theRHSType == XObject::eTypeString\).*?)theResult = doCompareString\(\s*theLHS\.nodeset\(\),\s*getStringFromNodeFunction\(executionContext\),\s*theRHS,\s*theStringCompareFunction,\s*executionContext\);', r'\1theResult = doCompareNumber(theLHS.nodeset(), getNumberFromNodeFunction(executionContext), theRHS.num(executionContext), theNumberCompareFunction);', expect='node-set with string'),
         Mutant('number_last_skipped', XO, r'(doCompareNumber\(.*?)i < len1 && theResult == false', r'\1i + 1 < len1 && theResult == false', expect='false only if'),
     ],
     mechanisms=['comparison of every pair of types (node-set operands: existential rule)'],
